@@ -135,6 +135,19 @@ UNITS['c06'] = {
     ],
 }
 
+UNITS['c02'] = {
+    'template': 'contracts/c02.vrs',
+    'mutants': [
+        ('post_operation_in_put_slot', 'atom::Method::Post => path_item.post = Some(op),', 'atom::Method::Post => path_item.put = Some(op),', ['C02.path_item', 'C02.relation_path_item']),
+        ('delete_operation_dropped', 'atom::Method::Delete => path_item.delete = Some(op),', 'atom::Method::Delete => {},', ['C02.path_item', 'C02.relation_path_item']),
+        ('request_body_as_if_no_transfer_declared', 'request_body: self.xfer_request(xfer),', 'request_body: None,', ['C02.path_item', 'C02.relation_path_item']),
+        ('header_params_dropped', 'params.push(ReferenceOr::Item(self.prop_header_param(p)));', '', ['C02.params', 'C02.xfer_params']),
+        ('query_params_as_headers', 'params.push(ReferenceOr::Item(self.prop_query_param(p)));', 'params.push(ReferenceOr::Item(self.prop_header_param(p)));', ['C02.params', 'C02.xfer_params']),
+        ('path_keyed_by_constant', 'rel.uri.pattern(),', 'String::new(),', ['C02.paths', 'C02.all_paths']),
+        ('method_label_put_is_post', 'atom::Method::Put => "put",', 'atom::Method::Put => "post",', ['C02.method_label']),
+    ],
+}
+
 UNITS['c10'] = {
     'template': 'contracts/c10.vrs',
     'mutants': [
@@ -235,6 +248,23 @@ PROPS = {
                        'The unresolved-variable family (imported generic function) remains as known finding C01.site.var.',
         'assumptions': ['preservation at eval_any (inhabits)', 'compiled(): every evaluated node was type-checked (glue not verified)', 'resolved(): no residual type variable (known finding when violated)', 'refs_are_schemas (evaluator invariant)'],
         'not_decided': ['preservation (that the inferred tag describes the evaluated value)', 'termination of evaluation / stack depth', 'eval_literal (token value / literal kind agreement), eval_primitive, the `eval` entry point; eval_application / eval_variable / eval_binding / eval_declaration / eval_recursion and the eval_any dispatcher are under contract since 12.8-12.12, their panics being excluded relative to stated preconditions (definition slots set by the resolver, the applied identifier has a function tag, the binder\'s frame is on the stack, the node kind is one of the 19 evaluable kinds)', 'emitter unreachable!/expect sites (oal-openapi)', 'loader/ModuleSet unwraps'],
+    },
+    'C02': {
+        'units': ['c02'],
+        'level': 'other',
+        'obligation_prefixes': ['C02.'],
+        'technique': 'Verus contracts on the real emitter functions Builder::{all_paths, relation_path_item, xfer_params, method_label} over mirrored openapiv3 field lists and the real spec::{Transfer, Relation, Spec, Content, Object} types',
+        'level_text': 'Deductive proof (Verus/Z3) of the structural skeleton of the translation, for every evaluated program: all_paths emits exactly one path item per resource, keyed by the resource\'s URI pattern, in program order '
+                      '(precondition: the patterns are pairwise distinct — equal patterns would collapse in the IndexMap); relation_path_item fills, for every declared method, exactly that method\'s slot with an operation whose id, description, tags, parameters, '
+                      'request body and responses are built from THAT method\'s transfer, and leaves every other slot empty; xfer_params lists every declared query parameter and every request header once, in order. '
+                      'What the leaves mean (schemas, responses, request bodies, annotations), i.e. agreement with an independent reference semantics of the language, is not decided: level other.',
+        'level_note': 'ASSUMED: openapiv3 struct field lists are mirrored mechanically from the vendored crate (payload types opaque), `#[derive(Default)]` gives None / empty; EnumMap iterates in the declaration order of atom::Method (R-local rewrite of the filter_map chain to `declared_transfers`); '
+                      'IndexMap::collect inserts in iteration order (R15); Option<String>/Vec<String> clones are equal; xfer_id, xfer_request, xfer_responses, uri_params, prop_query_param, prop_header_param are uninterpreted functions of their inputs here '
+                      '(uri_params, prop_*_param are under contract in unit c03, content_examples in c06). Rules R8f, R15.',
+        'design_ref': 'DESIGN.md section 12.14',
+        'explanation': 'The plan listed C02 as not applicable (needs a reference semantics). The clause "nothing declared is silently dropped, duplicated, or attached to a different declaration than the one the source names" has a function-level core in the emitter: which slot an operation goes to and which transfer it is built from.',
+        'assumptions': ['patterns of the resources are pairwise distinct (otherwise later resources overwrite earlier ones: not checked by the compiler)', 'shims listed in level_note'],
+        'not_decided': ['the evaluator side of the translation (that the evaluated spec means what the source says)', 'xfer_responses (status / media type grouping), domain_request, schemas, headers, annotations', 'uniqueness of URI patterns across resources', 'operationId uniqueness'],
     },
     'C03': {
         'units': ['c03'],
@@ -568,7 +598,6 @@ PROPS = {
 HOOK_COMMITS = []
 
 NOT_APPLICABLE = {
-    'C02': 'needs an independent reference semantics of the whole language and a relational proof over evaluator + emitter (25 mutually recursive eval_* over an external arena, Rc, serde_yaml); no function contract within reach decides "nothing dropped or re-attached" for programs',
     'C05': 'hyperproperty relating the outputs of two programs (before/after a rewrite); a contract speaks about one call, and a product encoding would need the whole pipeline inside the verifier',
     'C12': 'every parser production is a closure combinator over &mut Context (rejected by Verus: closures capturing a mutable reference); Kani on parse_program with three symbolic tokens did not finish in 30 min; the linear bound needs ghost accounting through that same code',
     'C18': 'rename correctness is alpha-equivalence of two whole programs (C05 shape) and depends on the resolver invariant (C08)',
